@@ -176,6 +176,16 @@ def main(seed, ncases, driver, out):
         if late is not None:
             if first_err is None: failures.append(dict(desc, kind="ill-posed-input-answered", expected=f"ValueError at first need ({late})"))
             elif not isinstance(first_err, ValueError): failures.append(dict(desc, kind="wrong-exception-type", error=type(first_err).__name__ + ": " + str(first_err)[:120]))
+            elif late == "shared":
+                # the rejection must stay a rejection: the same and other requests that need the pair, made after the failure,
+                # must fail again (a fresh computation would) — never return a value computed with resonant denominators dropped
+                answered = []
+                for (S, nm) in ((U, "U"), (Ht, "H_tilde"), (Ud, "U_inv")):
+                    for idx in ((0, 1, 1), (1, 0, 1), (0, 0, 2), (1, 1, 2)):
+                        if nm == "H_tilde" and idx[0] != idx[1]: continue
+                        try: S[idx]; answered.append(nm + str(list(idx)))
+                        except Exception: pass
+                if answered: failures.append(dict(desc, kind="ill-posed-input-answered-after-a-rejected-request", answered=answered))
         elif first_err is not None:
             failures.append(dict(desc, kind="well-posed-input-raises", error=type(first_err).__name__ + ": " + str(first_err)[:160]))
     proc.stdin.close()
